@@ -18,6 +18,12 @@ pub enum Case {
     /// ONE calculator whose separators are switched through the setters between evaluations:
     /// sequence of convention indices; after every switch every literal is read again
     Switched(Vec<usize>),
+    /// an expression tree of the C02 generator with fractional / large literals: rendered (style,
+    /// grouped?) and evaluated under every convention against the reference evaluator
+    Tree(crate::model::arith::Expr, crate::model::arith::Style, bool),
+    /// a literal (canonical decimal, grouped) or the line 'L * 2' / 'L km to m' under a convention
+    /// whose separators are not ',' / '.': (decimal separator, thousands separator, canonical, grouped, form)
+    Other(String, String, String, bool, u8),
 }
 
 pub fn conventions() -> Vec<Conv> {
@@ -28,6 +34,13 @@ fn fills(tier: Tier) -> Vec<(&'static str, bool)> {
     match tier {
         Tier::Quick => vec![("1.5", false), ("0.25", false), ("1234.5", true), ("1000", true), ("12.5", false)],
         Tier::Thorough => vec![("1.5", false), ("0.25", false), ("1234.5", true), ("1234.5", false), ("1000", true), ("12.5", false), ("0.001", false), ("1000000.75", true), ("999.995", false)],
+    }
+}
+
+fn want_grouped(v: &Val) -> bool {
+    match v {
+        Val::Number(x, _) | Val::Unit(x, _, _) => x.abs() >= 1000.0,
+        _ => false,
     }
 }
 
@@ -130,6 +143,39 @@ impl Prop for C08 {
                 move |ch| Some(Case::Line(ch.pick(&all).clone())),
             ));
         }
+        {
+            use crate::model::arith::Style;
+            let nmax = tier.pick(3, 4);
+            f.push(Family::new(
+                "arith-trees",
+                Mode::Full,
+                &format!("the expression trees of C02 (all binary trees with 1..={} leaves x + - * /) over the literals [1234.5, 0.25, 1000, -2.5] (thorough: also 1000000.125), rendered with blanks and without, large literals plain and grouped, under all 4 conventions: the value of the reference evaluator under every convention", nmax),
+                move |ch| {
+                    let n = 1 + ch.choose(nmax);
+                    let lits: &[&str] = if nmax > 3 { &["1234.5", "0.25", "1000", "-2.5", "1000000.125"] } else { &["1234.5", "0.25", "1000", "-2.5"] };
+                    let e = crate::props::c02::tree(ch, n, lits);
+                    let style = *ch.pick(&[Style::Minimal, Style::Tight]);
+                    let g = ch.flag();
+                    Some(Case::Tree(e, style, g))
+                },
+            ));
+        }
+        f.push(Family::new(
+            "other-separators",
+            Mode::Full,
+            "conventions the setters accept beyond ',' and '.': (decimal, thousands) in [(',' '''), ('.' ' '), ('.' '_'), (',' ' '), (';' '.'), ('.' '''), ('·' ',')] x literals [1234.5, 1000000, 12.5, 0.25, 999] plain and grouped x (alone, 'L * 2', 'L km to m'): the literal denotes the intended number and the result prints with the configured separators",
+            move |ch| {
+                let (d, t) = *ch.pick(&[(",", "'"), (".", " "), (".", "_"), (",", " "), (";", "."), (".", "'"), ("·", ",")]);
+                let c = *ch.pick(&["1234.5", "1000000", "12.5", "0.25", "999"]);
+                let g = ch.flag();
+                let int_len = c.split('.').next().unwrap().len();
+                if g && int_len <= 3 {
+                    return None;
+                }
+                let form = ch.choose(3) as u8;
+                Some(Case::Other(d.to_string(), t.to_string(), c.to_string(), g, form))
+            },
+        ));
         let ds = tier.pick(3, 4);
         f.push(Family::new(
             "switched-conventions",
@@ -206,6 +252,63 @@ impl Prop for C08 {
                 v.observed = trace;
                 v
             }
+            Case::Tree(e, style, g) => {
+                use crate::model::arith;
+                let want = arith::eval(e);
+                let mut v = Verdict { class: "value-compared", compared: true, expected: format!("Number({:?}) under every convention", want), ..Default::default() };
+                let mut seen = Vec::new();
+                for conv in convs.iter() {
+                    let conv = if *g { conv.clone().grouped() } else { conv.clone() };
+                    let text = arith::render(e, *style, &conv);
+                    if v.input.is_empty() {
+                        v.input = text.clone();
+                    }
+                    if arith::text_has_date_triple(&text) {
+                        return Verdict::pass(text, "excluded-date-triple", false, String::new(), 0);
+                    }
+                    let run = obs::eval(ctx.calc(&Cfg::seps(&conv.dec, &conv.thou)), "en", &text);
+                    v.evals += 1;
+                    seen.push(format!("[{}|{}] {} -> {}", conv.dec, conv.thou, text, run.brief()));
+                    let ok = matches!(run.single(), Some(Slot::Ok { val: Val::Number(x, _), .. }) if obs::close(*x, want, 1e-12));
+                    if !ok {
+                        if let Run::Panic(p) = &run {
+                            v.site = Some(p.site.clone());
+                        }
+                        v.violation = Some(format!("wrong value under the convention [{}|{}]", conv.dec, conv.thou));
+                        break;
+                    }
+                }
+                v.observed = seen.join(" ;; ");
+                v
+            }
+            Case::Other(d, t, c, g, form) => {
+                let conv = Conv::new(d, t);
+                let l = lit::render(c, &conv, *g);
+                let x = lit::value(c);
+                let (text, want) = match form {
+                    0 => (l.clone(), Val::Number(x, Base::Dec)),
+                    1 => (format!("{} * 2", l), Val::Number(2.0 * x, Base::Dec)),
+                    _ => (format!("{} km to m", l), Val::Unit(1000.0 * x, "metric-length".into(), 4)),
+                };
+                let run = obs::eval(ctx.calc(&Cfg::seps(d, t)), "en", &text);
+                let mut v = Verdict { input: format!("[{}|{}] {}", d, t, text), class: "literal-compared", compared: true, expected: format!("{:?}", want), observed: run.brief(), evals: 1, ..Default::default() };
+                match &run {
+                    Run::Panic(p) => {
+                        v.violation = Some(format!("panic: {}", p.message));
+                        v.site = Some(p.site.clone());
+                    }
+                    _ => match run.single() {
+                        Some(Slot::Ok { val, out }) if obs::val_close(val, &want, 1e-12) => {
+                            // printing: the integer part is grouped with the configured separator
+                            if want_grouped(&want) && !t.is_empty() && !out.contains(t.as_str()) {
+                                v.violation = Some("the result is not printed with the configured thousands separator".into());
+                            }
+                        }
+                        _ => v.violation = Some("the literal does not denote the intended number under its convention".into()),
+                    },
+                }
+                v
+            }
             Case::Literal(c, g, k) => {
                 let conv = &convs[*k];
                 let text = lit::render(c, conv, *g);
@@ -268,9 +371,13 @@ impl Prop for C08 {
                 let first = last_val(&results[0].1);
                 match first {
                     None => {
-                        // the corpus line is not evaluable under the default convention: nothing to relate
-                        v.class = "not-evaluable";
-                        v.compared = false;
+                        // not evaluable under the default convention: then under no convention
+                        if let Some((t, _)) = results.iter().skip(1).find(|(_, r)| last_val(r).is_some()) {
+                            v.violation = Some(format!("the line evaluates under one separator convention and not under another: {}", t));
+                        } else {
+                            v.class = "not-evaluable";
+                            v.compared = false;
+                        }
                     }
                     Some(a) => {
                         for (t, r) in results.iter().skip(1) {
